@@ -52,6 +52,11 @@ pub struct Node {
     _net_dir: Option<tempfile::TempDir>,
     /// receiver end of the pool's relay channel (needed to build a SyncShared / Relayer)
     pub relay_rx: Mutex<Option<ckb_channel::Receiver<ckb_tx_pool::service::TxVerificationResult>>>,
+    /// A pool node runs its services (tx-pool, block assembler, notifier, dummy network) on a
+    /// runtime of its own: ckb stops those tasks only by the process-wide exit signal, so dropping
+    /// the runtime is the only way to end them - and to release the database and memory they hold -
+    /// while the process goes on with other nodes.
+    rt: Option<tokio::runtime::Runtime>,
 }
 
 #[derive(Clone, Debug)]
@@ -120,7 +125,16 @@ impl Node {
         if let Some(a) = &opts.ancient {
             std::fs::create_dir_all(a).map_err(|e| e.to_string())?;
         }
-        let builder = SharedBuilder::new("ckbmc", dir, &db_config, opts.ancient.clone(), runtime(), opts.consensus.clone())
+        let rt = if opts.pool {
+            Some(tokio::runtime::Builder::new_multi_thread().worker_threads(2).thread_name("ckbmc-node").enable_all().build().map_err(|e| format!("node runtime: {e}"))?)
+        } else {
+            None
+        };
+        let handle = match &rt {
+            Some(rt) => ckb_async_runtime::Handle::new(rt.handle().clone(), None),
+            None => runtime(),
+        };
+        let builder = SharedBuilder::new("ckbmc", dir, &db_config, opts.ancient.clone(), handle, opts.consensus.clone())
             .map_err(|e| format!("SharedBuilder::new failed: {e:?}"))?;
         let mut builder = builder.header_map_tmp_dir(Some(dir.join("header_map")));
         std::fs::create_dir_all(dir.join("header_map")).ok();
@@ -146,7 +160,7 @@ impl Node {
         let scope = ChainServiceScope::new(pack.take_chain_services_builder());
         let relay_rx = Mutex::new(Some(pack.take_relay_tx_receiver()));
         drop(pack);
-        Ok(Node { shared, scope: Some(scope), dir: dir.to_path_buf(), deliveries: Arc::new(Mutex::new(vec![])), _net_dir: net_dir, relay_rx })
+        Ok(Node { shared, scope: Some(scope), dir: dir.to_path_buf(), deliveries: Arc::new(Mutex::new(vec![])), _net_dir: net_dir, relay_rx, rt })
     }
 
     pub fn chain(&self) -> &ChainController {
@@ -317,15 +331,35 @@ impl Node {
 
     /// Stop chain threads and release every handle this struct owns.
     pub fn shutdown(mut self) {
+        self.stop();
+    }
+
+    /// shutdown and delete the node's directory (nodes that are never re-opened)
+    pub fn destroy(mut self) {
+        self.stop();
+        let dir = self.dir.clone();
+        drop(self);
+        let _ = std::fs::remove_dir_all(dir);
+    }
+
+    fn stop(&mut self) {
         let scope = self.scope.take();
         drop(scope);
+        if let Some(rt) = self.rt.take() {
+            // the hook's sent/done counters are process-wide: work handed to this node's background
+            // tasks must be finished before they are killed, or no pool would ever look idle again
+            let t = Instant::now();
+            while !ckb_tx_pool::verif::background_idle() && t.elapsed() < Duration::from_secs(10) {
+                std::thread::sleep(Duration::from_micros(200));
+            }
+            rt.shutdown_timeout(Duration::from_secs(5));
+        }
     }
 }
 
 impl Drop for Node {
     fn drop(&mut self) {
-        let scope = self.scope.take();
-        drop(scope);
+        self.stop();
     }
 }
 
